@@ -20,7 +20,7 @@ RULE = (
 )
 ASSUMPTIONS = ["the client returns exactly the first name=value pair of the Set-Cookie line", "time.time is replaced by a pinned clock; the zone is switched with TZ + tzset inside the worker"]
 
-NAMES = ["a", "A1", "!#$%&'*+-.^_`|~"]
+NAMES = ["a", "A1", "!#$%&'*+-.^_`|~"] + [c + "x" for c in "!#$%&'*+-.^_`|~"] + ["$", "$Version", "~"]
 SPECIAL = ['"', "\\", ";", ",", "=", " ", "\t", "\0", "\r", "\n", "\x7f", "\x80", "\xff", "a", "%", ":"]
 SPECIAL8 = ['"', "\\", ";", " ", "=", "\xe9", "a", ","]
 ESC = ["\\", "1", "0", "7", '"', "3"]  # strings that look like the escapes the serialisation itself uses (\\ooo, \\", \\\\)
@@ -31,11 +31,11 @@ INSTANTS = [1772953199.5, 1772953200.0, 1793511000.25, 1783000000.0, 1798761599.
 
 def shards(tier, seed):
     out = [("one", n) for n in range(len(NAMES))]
-    out += [("two", n, i) for n in range(len(NAMES)) for i in range(len(SPECIAL))]
+    out += [("two", n, i) for n in range(3) for i in range(len(SPECIAL))]
     out += [("three", i) for i in range(len(SPECIAL8))]
     out += [("escapes", i) for i in range(len(ESC))]
     if tier == "thorough":
-        out += [("two_full", n, i) for n in range(len(NAMES)) for i in range(len(SPECIAL))]
+        out += [("two_full", n, i) for n in range(3) for i in range(len(SPECIAL))]
     out.append(("sets",))
     out += [("expiry", z) for z in ZONES]
     return out
@@ -96,12 +96,14 @@ def roundtrip(r, name, value, kind):
             r.add("outcomes", (kind, quoted))
 
 
-AWKWARD = [("a", 'x"y'), ("b", "p;q"), ("c", " lead"), ("d", "é\\"), ("e", ""), ("f", "k=v, z")]
+AWKWARD = [("a", 'x"y'), ("b", "p;q"), ("c", " lead"), ("d", "é\\"), ("e", ""), ("f", "k=v, z"), ("SID", "upper"), ("sid", "lower"), ("Sid", "mixed")]
 
 
 def cookie_sets(r):
     for n in (2, 3):
         for combo in itertools.permutations(AWKWARD, n):
+            if n == 3 and not any(k.lower() == "sid" for k, _ in combo) and combo[0][0] > "c":
+                continue  # keep the three-cookie product small: all triples containing a case variant, and those starting with a..c
             for iface in ("wsgi", "asgi"):
                 r.count("evaluations")
                 r.count("distinct_nontrivial")
